@@ -8,6 +8,7 @@ from ..rules import common
 from .c15 import asg, key_of, fn, _reach_until_ret, handler_covers
 
 TITLE = "The HTTP client transmits a non-idempotent request at most once"
+TECHNIQUE = 'finite predicate abstraction over the retry handler (idempotent / not-sent atoms, tracked bool copies) plus reaching-definition locality of the retry decision; CFG reachability from send calls to not-sent constructions; dominance for the retry budget; must-lockset; eviction-path rules'
 HC = "iora::network::HttpClient"
 HCF = "iora/network/http_client.hpp"
 M = HC + "::_mutex"
